@@ -48,7 +48,7 @@ func workerCall(entry string, in []byte) (out, extra string) {
 		return entryAuto(in), ""
 	case "csv":
 		var keep []vegeta.Result
-		out = decodeAll(vegeta.NewCSVDecoder(bytes.NewReader(in)), len(in), &keep)
+		out = decodeAll(vegeta.NewCSVDecoder(bytes.NewReader(in)), len(in), &keep, modeOf(in))
 		lines := make([]string, len(keep))
 		for i := range keep {
 			lines[i] = csvResultLine(&keep[i])
@@ -215,6 +215,14 @@ func (h *harness) runBatch(entry string, ins [][]byte) []resp {
 	out := make([]resp, len(ins))
 	i := 0
 	for i < len(ins) {
+		// circuit breaker: a change that makes every call hang or kill the process must not make
+		// the run take hours; the first few are reported, the rest of the entry point is skipped
+		if h.timeouts[entry] >= 2 || h.deaths[entry] >= 25 {
+			for ; i < len(ins); i++ {
+				out[i] = resp{status: "skipped"}
+			}
+			break
+		}
 		cmd := exec.Command(h.self)
 		cmd.Env = append(os.Environ(), "VH_C16_WORKER=1", "VH_C16_AS="+strconv.FormatUint(asLimit, 10), "VH_C16_SANDBOX="+h.sandbox)
 		stdin, err := cmd.StdinPipe()
@@ -273,9 +281,11 @@ func (h *harness) runBatch(entry string, ins [][]byte) []resp {
 				if !ok {
 					cmd.Wait()
 					out[i] = resp{status: "died", out: cmd.ProcessState.String() + ": " + errBuf.head(), extra: errBuf.all()}
+					h.deaths[entry]++
 					i++
 					break recv
 				}
+				h.deaths[entry] = 0 // consecutive deaths only
 				f := strings.SplitN(l, "\t", 4)
 				if len(f) != 4 {
 					out[i] = resp{status: "died", out: "malformed worker answer: " + l}
@@ -288,6 +298,7 @@ func (h *harness) runBatch(entry string, ins [][]byte) []resp {
 				cmd.Process.Kill()
 				cmd.Wait()
 				out[i] = resp{status: "timeout"}
+				h.timeouts[entry]++
 				i++
 				break recv
 			}
